@@ -192,6 +192,11 @@ def run(chk: Check):
     n = 4000 if chk.tier == "thorough" else 200
     for prog, sources, want in progs.gen_programs(chk.rng, n, ops=progs.CORE_OPS + ["swv", "roll", "take", "repeat", "map_overlap"]):
         run_program(chk, da, prog, sources, want, chk.rng)
+    import random as _random
+    api_rng = _random.Random(f"{chk.pid}-api-family-{chk.seed}")      # own stream: the families above keep theirs
+    for prog, sources, want in progs.gen_api_programs(api_rng, 2000 if chk.tier == "thorough" else 180):
+        chk.count("api-call:" + next(q[1] for q in progs.all_nodes(prog) if q[0] == "call"))
+        run_program(chk, da, prog, sources, want, api_rng)
 
 
 def replay(path):
